@@ -138,7 +138,7 @@ def run_numeric(item):
             rows.append(dict(id=i + 1, a=r.randint(-50, 50) if i % 3 else r.uniform(-50, 50)))
         keys = [exact(x['a']) for x in rows]
         key = '{a}'
-    reverse = r.random() < 0.4
+    reverse = item['reverse'] if 'reverse' in item else r.random() < 0.4
     batch = r.choice([1, 2, 7, 1000])
     try:
         out = sort_real(rows, key, reverse, batch)
@@ -216,9 +216,12 @@ def run():
         for _ in range(cnt if t == 'quick' else cnt * 15):
             nitems.append(dict(seed=r.randrange(10 ** 9), mode=mode))
     if t == 'thorough':
-        nitems += [dict(seed=r.randrange(10 ** 9), mode='big', n=12000), dict(seed=r.randrange(10 ** 9), mode='big', n=30000)]
+        nitems += [dict(seed=r.randrange(10 ** 9), mode='big', n=12000, reverse=True), dict(seed=r.randrange(10 ** 9), mode='big', n=12000, reverse=False),
+                   dict(seed=r.randrange(10 ** 9), mode='big', n=30000)]
     else:
-        nitems += [dict(seed=r.randrange(10 ** 9), mode='big', n=2500)]
+        # above the 10240-entry cache in both directions (the order must not depend on whether the data fits in memory)
+        nitems += [dict(seed=r.randrange(10 ** 9), mode='big', n=2500), dict(seed=r.randrange(10 ** 9), mode='big', n=10500, reverse=True),
+                   dict(seed=r.randrange(10 ** 9), mode='big', n=10500, reverse=False)]
     recs = pmap(run_numeric, nitems, chunksize=4)
     errs = harness_errors(recs)
     if errs:
